@@ -357,8 +357,15 @@ class Program(BlockBase):  # R201
 
         """
         # pylint: disable=unused-argument
+        # A parse that fails must leave nothing behind in the (global)
+        # symbol tables, whichever way it fails.
+        tables = SYMBOL_TABLES.snapshot()
         try:
-            return Base.__new__(cls, string, _deepcopy=_deepcopy)
+            try:
+                return Base.__new__(cls, string, _deepcopy=_deepcopy)
+            except BaseException:
+                SYMBOL_TABLES.restore(tables)
+                raise
         except NoMatchError:
             # At the moment there is no useful information provided by
             # NoMatchError so we pass on an empty string.
